@@ -604,25 +604,93 @@ Qed.
 Definition msg_field (m : value) (k : str) : option value :=
   match m with VDict _ items => assoc k items | _ => None end.
 
-(* the dictionary a message is about and, when the error path ends in a key, that key *)
+(* the dictionary a message is about and, when the message is named after a
+   key of the error path, that key: the last element if it is a key; for a path
+   ending in a list index, the object it points to, or - when it points to a
+   non-object, i.e. an item of a list-valued keyword - the last key of the path
+   and the dictionary holding that keyword *)
 Definition target (d : value) (e : verr) : res (value * option str) :=
   match epath e with
   | [] => Ok (d, None)
   | _ =>
       match last (epath e) (PIdx 0) with
-      | PIdx _ => do o <- findkey d (epath e); Ok (o, None)
+      | PIdx _ =>
+          do o <- findkey d (epath e);
+          if is_dict o then Ok (o, None)
+          else match last_key (epath e) with
+               | Some (pre, k) => do o' <- findkey d pre; Ok (o', Some k)
+               | None => Err PyValueError
+               end
       | PKey k => do o <- findkey d (removelast (epath e)); Ok (o, Some k)
       end
   end.
 
-(* the name a message carries: the last key of the error path, else the
-   __type__ of the object the path points to *)
+(* the name a message carries *)
 Definition named (d : value) (e : verr) (key : str) : Prop :=
   exists o ok, target d e = Ok (o, ok) /\
     match ok with
     | Some k => key = k
     | None => getitem o (PKey K_dtype) = Ok (VStr key)
     end.
+
+(* the tail of create_message, once the dictionary and the key are known *)
+Definition finish_message (e : verr) (o : value) (key : str) : res value :=
+  let path := epath e in
+  let base := [(Str "path", VList (map pelem_value path)); (Str "validator", VStr (ekw e));
+               (Str "message", VStr (msg_prefix ++ upper key))] in
+  do haspos <- contains o K_dposition;
+  if haspos then
+    do child <- (if is_nil path then Ok VNone else dict_get o key);
+    do child_pos <- (if is_dict child then contains child K_dposition else Ok false);
+    do pd <- (if child_pos then getitem child (PKey K_dposition)
+              else
+                do posd <- getitem o (PKey K_dposition);
+                if is_nil path then Ok posd
+                else do has <- contains posd key;
+                     if has then getitem posd (PKey key) else Ok posd);
+    do line <- dict_get pd (Str "line");
+    do column <- dict_get pd (Str "column");
+    Ok (VDict DPlain (base ++ [(Str "line", line); (Str "column", column)]))
+  else Ok (VDict DPlain base).
+
+Lemma finish_message_fields e o key m :
+  finish_message e o key = Ok m ->
+  msg_field m (Str "message") = Some (VStr (msg_prefix ++ upper key)) /\
+  msg_field m (Str "path") = Some (VList (map pelem_value (epath e))) /\
+  msg_field m (Str "validator") = Some (VStr (ekw e)).
+Proof.
+  unfold finish_message. intros H.
+  destruct (contains o K_dposition) as [hp|]; [|discriminate]. cbn [bind] in H.
+  destruct hp; [|injection H as <-; cbn; auto].
+  destruct (if is_nil (epath e) then Ok VNone else dict_get o key) as [child|]; [|discriminate]. cbn [bind] in H.
+  destruct (if is_dict child then contains child K_dposition else Ok false) as [cp|]; [|discriminate]. cbn [bind] in H.
+  match type of H with (do pd <- ?X; _) = _ => destruct X as [pd|]; [|discriminate] end. cbn [bind] in H.
+  destruct (dict_get pd (Str "line")) as [ln|]; [|discriminate]. cbn [bind] in H.
+  destruct (dict_get pd (Str "column")) as [cl|]; [|discriminate]. cbn [bind] in H.
+  injection H as <-. cbn. auto.
+Qed.
+
+(* create_message = find the target, then finish *)
+Lemma create_message_target d e :
+  create_message d e =
+  do t <- target d e;
+  match snd t with
+  | Some k => finish_message e (fst t) k
+  | None => do kv <- getitem (fst t) (PKey K_dtype);
+            match kv with VStr key => finish_message e (fst t) key | _ => Err PyAttributeError end
+  end.
+Proof.
+  unfold create_message, target, finish_message.
+  destruct (epath e) as [|p0 ps] eqn:Ep.
+  - cbn [bind fst snd]. destruct (getitem d (PKey K_dtype)) as [kv|]; reflexivity.
+  - destruct (last (p0 :: ps) (PIdx 0)) as [k|i].
+    + destruct (findkey d (removelast (p0 :: ps))) as [o|]; reflexivity.
+    + destruct (findkey d (p0 :: ps)) as [o|]; [|reflexivity]. cbn [bind].
+      destruct (is_dict o).
+      * cbn [bind fst snd]. destruct (getitem o (PKey K_dtype)) as [kv|]; reflexivity.
+      * destruct (last_key (p0 :: ps)) as [[pre k]|]; [|reflexivity].
+        destruct (findkey d pre) as [o'|]; reflexivity.
+Qed.
 
 Lemma create_message_names d e m :
   create_message d e = Ok m ->
@@ -631,43 +699,13 @@ Lemma create_message_names d e m :
     msg_field m (Str "path") = Some (VList (map pelem_value (epath e))) /\
     msg_field m (Str "validator") = Some (VStr (ekw e)).
 Proof.
-  unfold create_message, named, target. intros H.
-  destruct (epath e) as [|p0 ps] eqn:Ep.
-  - destruct (getitem d (PKey K_dtype)) as [kv|] eqn:Eg; [|discriminate]. cbn [bind] in H.
+  rewrite create_message_target. intros H. unfold named.
+  destruct (target d e) as [[o ok]|] eqn:Et; [|discriminate]. cbn [bind fst snd] in H.
+  destruct ok as [k|].
+  - exists k. split; [exists o, (Some k); auto|]. exact (finish_message_fields e o k m H).
+  - destruct (getitem o (PKey K_dtype)) as [kv|] eqn:Eg; [|discriminate]. cbn [bind] in H.
     destruct kv as [| | | |key| |]; try discriminate.
-    exists key. split; [exists d, None; auto|].
-    destruct (contains d K_dposition) as [hp|]; [|discriminate]. cbn [bind] in H.
-    destruct hp.
-    + destruct (getitem d (PKey K_dposition)) as [posd|]; [|discriminate]. cbn [bind is_nil] in H.
-      destruct (dict_get posd (Str "line")) as [ln|]; [|discriminate]. cbn [bind] in H.
-      destruct (dict_get posd (Str "column")) as [cl|]; [|discriminate]. cbn [bind] in H.
-      injection H as <-. cbn. auto.
-    + injection H as <-. cbn. auto.
-  - destruct (last (p0 :: ps) (PIdx 0)) as [k|i] eqn:El.
-    + destruct (findkey d (removelast (p0 :: ps))) as [o|] eqn:Ef; [|discriminate]. cbn [bind] in H.
-      exists k. split; [exists o, (Some k); auto|].
-      destruct (contains o K_dposition) as [hp|]; [|discriminate]. cbn [bind] in H.
-      destruct hp.
-      * destruct (getitem o (PKey K_dposition)) as [posd|]; [|discriminate]. cbn [bind is_nil] in H.
-        destruct (contains posd k) as [has|]; [|discriminate]. cbn [bind] in H.
-        destruct (if has then getitem posd (PKey k) else Ok posd) as [pd|]; [|discriminate]. cbn [bind] in H.
-        destruct (dict_get pd (Str "line")) as [ln|]; [|discriminate]. cbn [bind] in H.
-        destruct (dict_get pd (Str "column")) as [cl|]; [|discriminate]. cbn [bind] in H.
-        injection H as <-. cbn. auto.
-      * injection H as <-. cbn. auto.
-    + destruct (findkey d (p0 :: ps)) as [o|] eqn:Ef; [|discriminate]. cbn [bind] in H.
-      destruct (getitem o (PKey K_dtype)) as [kv|] eqn:Eg; [|discriminate]. cbn [bind] in H.
-      destruct kv as [| | | |key| |]; try discriminate.
-      exists key. split; [exists o, None; auto|].
-      destruct (contains o K_dposition) as [hp|]; [|discriminate]. cbn [bind] in H.
-      destruct hp.
-      * destruct (getitem o (PKey K_dposition)) as [posd|]; [|discriminate]. cbn [bind is_nil] in H.
-        destruct (contains posd key) as [has|]; [|discriminate]. cbn [bind] in H.
-        destruct (if has then getitem posd (PKey key) else Ok posd) as [pd|]; [|discriminate]. cbn [bind] in H.
-        destruct (dict_get pd (Str "line")) as [ln|]; [|discriminate]. cbn [bind] in H.
-        destruct (dict_get pd (Str "column")) as [cl|]; [|discriminate]. cbn [bind] in H.
-        injection H as <-. cbn. auto.
-      * injection H as <-. cbn. auto.
+    exists key. split; [exists o, None; auto|]. exact (finish_message_fields e o key m H).
 Qed.
 
 Definition message_for (d : value) (e : verr) (m : value) : Prop :=
@@ -777,9 +815,8 @@ Proof.
 Qed.
 
 (* ------------------------------------------------------------------ never raises: the guarded statement *)
-(* the error is about a dictionary [o] (no error path ending in a list index
-   below a non-object), [o] names itself when the path does not name a key, and
-   carries no position record *)
+(* the target of the error is a dictionary [o] that names itself when the
+   message is not named after a key, and carries no position record *)
 Definition guard (d : value) (e : verr) : Prop :=
   exists c items ok,
     target d e = Ok (VDict c items, ok) /\
@@ -788,16 +825,11 @@ Definition guard (d : value) (e : verr) : Prop :=
 
 Lemma create_message_guarded d e : guard d e -> exists m, create_message d e = Ok m.
 Proof.
-  intros (c & items & ok & Ht & Hp & Hk). unfold create_message. unfold target in Ht.
-  destruct (epath e) as [|p0 ps] eqn:Ep.
-  - injection Ht as -> <-. destruct (Hk eq_refl) as (key & Hg). rewrite Hg. cbn [bind].
-    rewrite Hp. cbn [bind]. eexists. reflexivity.
-  - destruct (last (p0 :: ps) (PIdx 0)) as [k|i].
-    + destruct (findkey d (removelast (p0 :: ps))) as [o|]; [|discriminate]. cbn [bind] in Ht.
-      injection Ht as -> <-. cbn [bind]. rewrite Hp. cbn [bind]. eexists. reflexivity.
-    + destruct (findkey d (p0 :: ps)) as [o|]; [|discriminate]. cbn [bind] in Ht.
-      injection Ht as -> <-. cbn [bind]. destruct (Hk eq_refl) as (key & Hg). rewrite Hg. cbn [bind].
-      rewrite Hp. cbn [bind]. eexists. reflexivity.
+  intros (c & items & ok & Ht & Hp & Hk). rewrite create_message_target, Ht. cbn [bind fst snd].
+  destruct ok as [k|].
+  - unfold finish_message. rewrite Hp. cbn [bind]. eexists. reflexivity.
+  - destruct (Hk eq_refl) as (key & Hg). rewrite Hg. cbn [bind].
+    unfold finish_message. rewrite Hp. cbn [bind]. eexists. reflexivity.
 Qed.
 
 Lemma get_error_messages_guarded d errs :
